@@ -17,8 +17,16 @@ from concurrent.futures import ThreadPoolExecutor
 
 EXTRA = [b"\x05", b"\x19", b"\x04", b"\x15", b"\x06", b"\x02", b"z\n", b"z.", b"z-", b"3\x05", b"2\x19", b":3\n", b":$\n",
          b":se hll\n", b":se nohll\n", b":se nohl\n", b":se hl\n", b"u", b"\x12", b"\x0c", b"\x07", b"G", b"1G", b"$", b"0",
+         b"ggyGP", b"c5jXY\x1b", b"3ccZ\x1b", b"cGq\x1b", b"c}w\x1b", b"d4j", b"5dd", b"dG", b"4J", b"3>>", b"c9j\x1b", b"2Gc7jQ\x1b", b"d}", b"5x", b"yjP", b"y3jp",
+         b"3Gc9jNEW\x1b", b"HcLx\x1b", b"McGy\x1b", b"Hd2j", b"Lc2kz\x1b", b"\x04c3jw\x1b", b"\x05\x05c4jv\x1b",
          b":1,2p\n\n", b":s/a/AAAAAAAAAAAAAAAAAAAAAAAAAAAAAAAAAAAAAAAAAAAAAAAAAAAAAAAAAAAAAAAAAA/\n", b"yyP", b"dd", b"5o\x1b", b"J"]
 SIZES = [(5, 14), (8, 24), (12, 40), (24, 80), (4, 12), (24, 30)]
+
+
+CORPUS = [(b"ia\nb\nc\x1bggdGsx\x1b", (6, 24)), (b"ia\nb\nc\x1bggdGcwx\x1b", (6, 24)), (b"ia\nb\nc\x1bggdGCx\x1b", (8, 24)),
+          # a change that begins above the window (vi_drawfix)
+          (b"i1\n2\n3\n4\n5\n6\n7\n8\n9\x1bgg\x05\x05\x05:1,5d\nu:1,2s/^/x/\nu", (5, 14)),
+          (b"i1\n2\n3\n4\n5\n6\n7\n8\n9\x1bG:1,3d\n:u\n", (4, 12))]
 
 
 def session(ctx, sc, k):
@@ -29,6 +37,11 @@ def session(ctx, sc, k):
         keys += txt(s["keys"]).encode("utf-8", "surrogateescape")
         if rng.random() < 0.3:
             keys += rng.choice(EXTRA)
+    return session_keys(ctx, keys, (R, C), sc["seed"])
+
+
+def session_keys(ctx, keys, size, seed=0):
+    R, C = size
     recs, rc, err, to, work = run_vi(ctx, ["-v"], keys + b":q!\n", timeout=30,
                                      env_extra={"LINES": str(R), "COLUMNS": str(C), "NEATVI_VERIF_TTY": "1"})
     shutil.rmtree(work, True)
@@ -51,15 +64,72 @@ def session(ctx, sc, k):
             first = False
             nvi += 1
     complete = bool(recs) and recs[-1].get("ev") == "exit" and rc == 0
-    return {"recs": out, "complete": complete, "nvi": nvi, "keys": keys, "size": (R, C), "stderr": err[-1500:], "seed": sc["seed"]}
+    return {"recs": out, "complete": complete, "nvi": nvi, "keys": keys, "size": (R, C), "stderr": err[-1500:], "seed": seed}
+
+
+def validate_one(ctx, recs, tag):
+    env, _ = vidrive.lib_env(ctx)
+    f = ctx.path("trace", "%s.ndjson" % tag)
+    with open(f, "w") as fh:
+        for r in recs:
+            fh.write(json.dumps(r) + "\n")
+    e = dict(env)
+    e["TRACE"] = f
+    r = tlc(ctx, "TraceTerm", os.path.join(SPEC, "TraceTerm.cfg"), env=e, workers=1, timeout=600, heap="2g")
+    v = tlc_printed(r["out"], "VIOL") if r["ok"] else None
+    if not v:
+        raise Infra("trace validation failed: %s" % r["out"][-1500:])
+    return v[-1]["violations"]
+
+
+def replay(ctx, r):
+    """re-run the key stream of a replay file; VERIF_C19_MIN=1 also shrinks it while the screen still goes wrong"""
+    ctx.build()
+    keys, size = bytes.fromhex(r["keys_hex"]), tuple(r["window"])
+    n = [0]
+
+    def bad(k):
+        n[0] += 1
+        s = session_keys(ctx, k, size)
+        return s["complete"] and validate_one(ctx, s["recs"], "r%d" % (n[0] % 16))
+    v = bad(keys)
+    print("violations:", json.dumps(v)[:600] if v else v)
+    if v and os.environ.get("VERIF_C19_MIN"):
+        import termemu
+
+        def bad(k):        # search aid only: rows before and after a final redraw differ
+            s = session_keys(ctx, k + b"\x0c", size)
+            return s["complete"] and termemu.stale_rows(s["recs"], *size)
+        if not bad(keys):
+            print("the redraw heuristic does not see it; not shrinking")
+            return 1
+        parts = [c.encode() for c in keys.decode("utf-8", "replace")]
+        chunk = max(1, len(parts) // 2)
+        while chunk >= 1:
+            i = 0
+            while i < len(parts):
+                cand = parts[:i] + parts[i + chunk:]
+                if cand and bad(b"".join(cand)):
+                    parts = cand
+                else:
+                    i += chunk
+            chunk //= 2
+        print("minimal keys: %r window %s; TLC on them: %s" % (b"".join(parts), size, json.dumps(validate_one(ctx, session_keys(ctx, b"".join(parts), size)["recs"], "min"))[:500]))
+    if v:
+        print("VIOLATION property=C19 replay=%s" % os.path.abspath(sys.argv[sys.argv.index("--replay") + 1]))
+    return 1 if v else 0
 
 
 def main(ctx, args):
+    if args.replay_obj:
+        return replay(ctx, args.replay_obj)
     n, steps = (48, 40) if ctx.quick else (900, 60)
     scripts = vidrive.gen(ctx, "mot", n // 3, steps) + vidrive.gen(ctx, "edit", n - n // 3, steps, ai=0)
     ctx.build()
     with ThreadPoolExecutor(NCPU) as ex:
         sess = list(ex.map(lambda ks: session(ctx, ks[1], ks[0]), enumerate(scripts)))
+        # the key streams of the repaired defects run on every execution
+        sess += list(ex.map(lambda kz: session_keys(ctx, kz[0], kz[1], -1), CORPUS))
     st = dict(sessions=len(sess), boundaries=0, checked=0, events=0, violations=0, incomplete=0)
     # shards of sessions -> one TLC trace validation each
     env, _ = vidrive.lib_env(ctx)
